@@ -533,6 +533,10 @@ func seqTags(ops []string, impl string) []string {
 
 func main() {
 	logger.SetLevel(zap.FatalLevel)
+	if len(os.Args) > 5 && os.Args[1] == "child-index" {
+		indexChild(os.Args[2:])
+		return
+	}
 	if len(os.Args) > 2 && os.Args[1] == "child-budget" {
 		budgetChild(os.Args[2:])
 		return
@@ -656,6 +660,20 @@ func main() {
 			rep.Violate(*viol)
 		}
 	}
+	orcI := vh.NewOracle("cache.indexloaders.property", "real frac.IDsLoader (MIDs / RIDs / params) and token.TableLoader over a real index file through real caches, with a one-shot read fault (missing tail, then completed): once the file is complete every lookup returns what was written (no entry left by a failed load), the token table of three index blocks equals the written one on every Get, getSize = bytes held; non-trivial = the scenario has a fault or a token-table lookup")
+	addIndex := func(seed int64, front bool, cut int, ops []string, tags ...string) {
+		key := fmt.Sprintf("index %d %s %d %s", seed, vh.B(front), cut, strings.Join(ops, ";"))
+		current.Store(key)
+		progress.Add(1)
+		viols, note := runIndexScenario(seed, front, cut, ops)
+		if note != "" {
+			orcI.Distribution["ended-under-fault"]++
+		}
+		orcI.Case(key, cut > 0 || strings.Contains(key, "T"), tags...)
+		for _, v := range viols {
+			rep.Violate(v)
+		}
+	}
 	chB := vh.NewChannel("cache.budget", "fracmanager.FillConfigWithDefault + NewCacheMaintainer on a grid of (CacheSize, FracSize, SortCacheSize set/unset) vs SV.Budget (naturals): effective sort-cache size equal, every layer limit within one unit of the exact floor (or garbage above the cache size exactly when the model's remainder is negative); non-trivial = CacheSize > 0")
 	orcB := vh.NewOracle("cache.budget.property", "on the real cleaners: every limit <= CacheSize and positive (CacheSize >= 1 MiB), limits sum to at most CacheSize, and after overfilling the docs layer three quiet maintenance ticks leave at most CacheSize accounted; non-trivial = CacheSize > 0")
 	addBudgets := func(cases []budgetCase, tags ...string) {
@@ -694,6 +712,11 @@ func main() {
 				lim, _ := strconv.ParseUint(f[2], 10, 64)
 				nb, _ := strconv.Atoi(f[3])
 				addLoader(sd, lim, nb, strings.Split(f[4], ";"), "replay")
+			}
+			if len(f) == 5 && f[0] == "index" {
+				sd, _ := strconv.ParseInt(f[1], 10, 64)
+				cut, _ := strconv.Atoi(f[3])
+				addIndex(sd, f[2] == "1", cut, strings.Split(f[4], ";"), "replay")
 			}
 			if len(f) == 4 && f[0] == "budget" {
 				c, _ := strconv.ParseUint(f[1], 10, 64)
@@ -912,12 +935,29 @@ func main() {
 			nb := rng.Range(3, 12)
 			addLoader(o.Seed*1000+int64(i), []uint64{0, 1500, 4000, 100000}[rng.Intn(4)], nb, genLoader(rng, nb, rng.Range(5, 40)), "random")
 		}
+		// 8b. the sealed-index loaders: no fault (coherence of MIDs / RIDs / params / the multi-block token table), a
+		//     registry fault (tail of a normally laid out file missing), block faults (registry in front, tail missing)
+		addIndex(o.Seed, false, 0, strings.Split("T;T;M0;Q0;P0;T;M1;M0;r;T;c;T;Q1;P2;T", ";"), "no-fault")
+		addIndex(o.Seed, false, 40, strings.Split("M0;+;M0;M0;Q0;P0", ";"), "registry-fault")
+		addIndex(o.Seed, false, 40, strings.Split("Q1;P1;M1;+;Q1;P1;M1;Q1;P1", ";"), "registry-fault")
+		addIndex(o.Seed, true, 30, strings.Split("M0;P2;Q2;M2;+;P2;Q2;M2;P2;Q2", ";"), "block-fault")
+		addIndex(o.Seed, true, 700, strings.Split("M2;Q1;P1;M1;+;M2;Q1;P1;M1;Q2;P2", ";"), "block-fault")
+		for sd := int64(0); sd < 4; sd++ { // the file ends inside the second / third block of the token table
+			addIndex(o.Seed+sd, true, -4, strings.Split("T;+;T;T;M0", ";"), "table-block-fault")
+			addIndex(o.Seed+sd, true, -5, strings.Split("M0;T;+;T;T", ";"), "table-block-fault")
+		}
+		for i := 0; i < o.Pick(40, 600); i++ {
+			front := rng.Bool()
+			cut := []int{0, 20, 40, 200, 900, 3000}[rng.Intn(6)]
+			addIndex(o.Seed*100+int64(i), front, cut, genIndexOps(rng, rng.Range(3, 14), cut > 0), "random")
+		}
 		// 9. the configured cache size and its split among the cleaners
 		addBudgets(budgetGrid(rng, o.Pick(200, 5000)), "grid")
 	}
 	progress.Add(1)
 	rep.AddChannel(chL, o.Driver)
 	rep.AddOracle(orcL)
+	rep.AddOracle(orcI)
 	rep.AddChannel(chB, o.Driver)
 	rep.AddOracle(orcB)
 	progress.Add(1)
